@@ -143,7 +143,7 @@ Proof.
   assert (Hloab : 0 <= lo * ab) by (apply Z.mul_nonneg_nonneg; lia).
   assert (HRrb : 0 <= zn rsz * rb) by (apply Z.mul_nonneg_nonneg; unfold zn; lia).
   assert (Eend : Z.to_nat (clampZ (- lo * ab) 0 (zn rsz * rb) / rb) = 0%nat).
-  { unfold clampZ. replace (Z.max 0 (Z.min (- lo * ab) (zn rsz * rb))) with 0 by lia. reflexivity. }
+  { unfold clampZ. replace (Z.max 0 (Z.min (- lo * ab) (zn rsz * rb))) with 0 by (clear - Hloab HRrb; lia). reflexivity. }
   rewrite Eend. clear Eend.
   destruct (Nat.eqb_spec res_start 0) as [Ers0|Ers0].
   - (* nothing of a reaches res *)
@@ -250,9 +250,9 @@ Proof.
       cbn [fst snd] in I1, I2, I3. subst bad. cbn [Nat.eqb].
       assert (HF : C08CrossOuter.Final rb ab a lsh rsz z g (c_res s)).
       { destruct brk; [apply I2; reflexivity|].
-        destruct (I3 eq_refl) as [[E _]|[_ HO]]; [lia|].
+        destruct (I3 eq_refl) as [[E _]|[_ HO]]; [clear - E Hmid; lia|].
         apply (outer_finalW wd rb ab Hab a lsh Hl rsz z g Hz Hg lo (a_out + (a_start - a_end)) s Hlo Hgeo'); [|exact HO].
-        unfold a_out, asz, zn in *. lia. }
+        clear - Hast Hmid Eaend Hlo HloA. unfold a_out, asz, zn in *. lia. }
       exists (c_res s). split; [reflexivity|]. split; [apply HF|].
       intros P HP. rewrite <- Eoff in HP |- *.
       apply (final_valueW wd rb ab Hrb Hab a lsh Hl rsz z g Hz Hg Hzg lo P (c_res s) Hlo Hgeo' ltac:(lia) HF).
